@@ -93,9 +93,26 @@ class Gen:
         return self.r.randrange(n)
 
 
+def real_exception(name, *args):
+    """instance of the real exception class called `name` (stubs of a unit must raise what the real code can catch)"""
+    import builtins, struct as _s, binascii as _b, socket as _sk
+    table = {'struct.error': _s.error, 'binascii.Error': _b.Error, 'socket.timeout': _sk.timeout, 'socket.error': OSError}
+    if name in table:
+        return table[name](*args)
+    if hasattr(builtins, name) and isinstance(getattr(builtins, name), type) and issubclass(getattr(builtins, name), BaseException):
+        return getattr(builtins, name)(*args)
+    try:
+        import pymodbus.exceptions as _pe
+        if hasattr(_pe, name):
+            return getattr(_pe, name)(*(args or ('',)))
+    except ImportError:
+        pass
+    return ConcRaised(name)
+
+
 class ConcE:
     mode = 'concrete'
-    Raised = ConcRaised
+    Raised = staticmethod(real_exception)
 
     def __init__(self, inputs=None, gen=None):
         self.inputs = dict(inputs or {})
@@ -244,9 +261,13 @@ class ConcE:
             return Outcome(value=thunk())
         except ConcRaised as r:
             return Outcome(exc=r)
+        except Vacuous:
+            raise
+        except Exception as e:             # a real exception raised by a stub of the unit outside E.call / E.method
+            return Outcome(exc=ConcRaised(exc_name(e), e))
 
     def raise_(self, clsname):
-        raise ConcRaised(clsname)
+        raise real_exception(clsname)
 
     def get(self, obj, name):
         return self._run(lambda: getattr(obj, name))
